@@ -44,7 +44,36 @@ def c11(tier, seed):
     }
 
 
-PROPS = {'C11': c11}
+def c20(tier, seed):
+    jobs = [J('vh_c20_charset', [g, 0], 'group=%d' % g) for g in (0, 1, 2)]
+    kmax = 3 if tier == 'quick' else 4
+    jobs += [J('vh_c20_charset', [3, k], 'inter_list k=%d' % k, cost=k + 1) for k in range(0, kmax + 1)]
+    return {'jobs': jobs,
+            'bounds': 'two symbolic intervals a<=b<=0x2FFFF, c<=d<=0x2FFFF and a symbolic u32 x (full 32-bit range); inter_list over 0..%d symbolic intervals' % kmax,
+            'outside': ['inter_list on more than %d sets' % kmax]}
+
+
+def c12(tier, seed):
+    jobs = []
+    nm = 2 if tier == 'quick' else 3
+    for n in range(0, nm + 1):
+        for m in range(0, nm + 1):
+            jobs.append(J('vh_c12_merge', [n, m], 'merge %dx%d' % (n, m), cost=10 ** (n + m)))
+    if tier == 'thorough':
+        jobs += [J('vh_c12_merge', [4, 1], 'merge 4x1', cost=10 ** 5), J('vh_c12_merge', [1, 4], 'merge 1x4', cost=10 ** 5)]
+    laws = [(0, 0, 0), (1, 0, 0), (1, 1, 0), (1, 1, 1), (2, 1, 0)] if tier == 'quick' else \
+        [(0, 0, 0), (1, 0, 0), (1, 1, 0), (1, 1, 1), (2, 0, 0), (2, 1, 0), (2, 1, 1), (2, 2, 0)]
+    for (a, b, c) in laws:
+        jobs.append(J('vh_c12_laws', [a, b, c], 'laws %d,%d,%d' % (a, b, c), cost=30 ** (a + b + c)))
+    return {'jobs': jobs,
+            'bounds': 'merge_partitions on n x m intervals, n,m <= %d, all end points symbolic over [0,0x2FFFF]; characters x,y,z symbolic; '
+                      'merge_partition_list over 3 partitions (sizes %s) under all 6 orders' % (nm, laws),
+            'outside': ['partitions with more intervals', 'lists longer than 3'],
+            'assumptions': ['C12 is checked in the reading given in DESIGN.md 4.C12: refinement + maximality on adjacent characters + '
+                            'complement = intersection of complements with least witness (the literal all-pairs reading is unsatisfiable for interval lists)']}
+
+
+PROPS = {'C11': c11, 'C12': c12, 'C20': c20}
 
 
 def get(pid, tier, seed):
